@@ -661,7 +661,11 @@ class Run:
                 time.sleep(0.005)
         else:
             need = sc.get('wait_for', [])
-            if need:
+            wc = sc.get('wait_counts')
+            if wc:
+                # no upper bound on lateness is asserted: wait (generously) until the expected wake-ups happened
+                wait_for(lambda: all(self.count.get(int(t), 0) >= n for t, n in wc.items()), sc.get('before_final', 3.0))
+            elif need:
                 wait_for(lambda: all(self.count.get(t, 0) > 0 for t in need), sc.get('before_final', 0.03))
             else:
                 time.sleep(sc.get('before_final', 0.03))
